@@ -764,6 +764,18 @@ namespace fsh
                 os << ' ' << x;
             os << "\n";
         }
+        else if (kind == "m")
+        {
+            // neighbours sorted by index (the storage order of a mesh is that of a hash map)
+            std::vector<std::tuple<std::size_t, double, int>> v;
+            for (auto& nb : grid.neighbors(i))
+                v.emplace_back(nb.idx, nb.distance, st_int(nb.status));
+            std::stable_sort(v.begin(), v.end(), [](auto& a, auto& b) { return std::get<0>(a) < std::get<0>(b); });
+            os << "O q m " << i;
+            for (auto& t : v)
+                os << ' ' << std::get<0>(t) << ' ' << hexd(std::get<1>(t)) << ' ' << std::get<2>(t);
+            os << "\n";
+        }
         else if (kind == "so")
         {
             // out-parameter overload with a vector that is reused from query to query
